@@ -140,7 +140,14 @@ class HeapView:
         return SV(z3.IsMember(ref.t, self._alloc), TBool)
 
     def raw(self, key):
-        return self._heap.get(key)
+        """the whole array of a field in this heap.  A field that has not been touched yet is materialised as its entry-state
+        constant (returning None here made `h.raw(k) == h0.raw(k)` the Python value True and silently dropped frame clauses)"""
+        if key not in self._heap:
+            if key.startswith("G."):
+                return self.G(key[2:])
+            cls, f = key.split(".")
+            self._engine.heap_array(self._heap, cls, f)
+        return self._heap[key]
 
 
 class _ObjView:
